@@ -18,7 +18,10 @@ EXPLANATION = (
     "indices, equalities between array values over Int and over finite index sorts, bound variables that occur only "
     "inside an array value, two simplifications in one environment (R4).  Two real environments: the simplifier of the "
     "second (quantifier pruning included) answers the same whether or not the first worked on nodes with the same ids "
-    "(R6).")
+    "(R6).  Whole terms on the real manager - Simplifier.simplify interpreted together with the real FormulaManager whose constructors "
+    "the handlers rebuild nodes through: ~2400 composed skeletons outer(disguise(inner)) whose operand becomes an inner-application only "
+    "through simplification (bit-vector, Boolean, Int and Real operators), stores of the default element over array values at symbolic "
+    "indices, quantifier alternations and nests: the result denotes what the input denotes (R7).")
 NOT_DECIDED = [
     "operand configurations and array terms outside the menus (the evidence lists them)",
     "arithmetic shift right at symbolic width; quantifier pruning beyond the skeletons of R3 / R6",
